@@ -156,6 +156,11 @@ class History:
                     self.v("C07", f"library-thread-died:{rec['exc_type']}",
                            f"a library thread ({rec['thread_class']}) died with {rec['exc_type']}: {rec['exc']} and the stream stalled",
                            traceback=rec["traceback"][-1500:])
+                    # nothing is delivered any more: the stream cannot reproduce the tree (C01) nor cover any directory (C02)
+                    for pid_ in ("C01", "C02"):
+                        self.v(pid_, "stream-ended-library-thread-died",
+                               f"the event stream ended in the middle of the history: {rec['thread_class']} died with {rec['exc_type']}: {rec['exc']}",
+                               traceback=rec["traceback"][-1500:], history=self.ops[-30:])
                 else:
                     # a stalled stream: was monitoring stopped although the root is still there?
                     emitters = list(sess.obs.emitters)
